@@ -18,6 +18,7 @@ PROP = dict(
         "MM.C16.C16_relay_frames_never_reach_exit",
         "MM.C16.C16_unclaimed_frame_leaves_relay_untouched",
         "MM.C16.C16_relay_payload_unchanged",
+        "MM.C16.C16_ingress_err_targets_one",
         "MM.C16.C16_refuted",
         "MM.C16.C16_refuted_close_hits_other",
     ],
